@@ -49,12 +49,13 @@ def roundtrip(cls, k, data):
     st2, p2 = D.encode(cls, v)
     if st2 != "ok":
         return f"{cv}>{st2}", f"decoded value {v!r} is refused by to_knx ({st2})"
-    cp2 = D.payload_canon(p2)
+    nan32 = D.FAM[cls.__name__] == "f32"
+    cp2 = D.payload_canon(p2, nan32)
     st3, v2 = D.decode(cls, p2)
     if st3 != "ok":
         return f"{cv}>{cp2}>{st3}", f"decoded value {v!r} re-encodes to {cp2} which from_knx refuses ({st3})"
     cv2 = D.canon(v2)
-    tok = cv if (cp2 == D.payload_canon(p) and cv2 == cv) else f"{cv}>{cp2}>{cv2}"
+    tok = cv if (cp2 == D.payload_canon(p, nan32) and cv2 == cv) else f"{cv}>{cp2}>{cv2}"
     if not D.same_value(expected_redecode(cls, v), v2):
         return tok, f"decodes to {v!r}, re-encodes to {cp2}, which decodes to {v2!r}"
     if type(p2) is not cls.payload_type:
@@ -115,6 +116,6 @@ def outcome_class(out):
 
 
 def evidence_extra():
-    unm = sorted({f"{c.__name__}:{D.family(c)}" for c in D.CLASSES if D.family(c).startswith("unmodelled")})
+    unm = sorted({f"{c.__name__}:{D.FAM[c.__name__]}" for c in D.CLASSES if D.FAM[c.__name__].startswith("unmodelled")})
     return {"payload_evaluations": _stats["payloads"], "payloads_accepted_and_round_tripped": _stats["accepted"],
             "classes_covered": len(_stats["classes"]), "classes_total": len(D.CLASSES), "unmodelled_classes": unm}
